@@ -524,3 +524,78 @@ func histAuditCodec(c *Ctx, rule string) {
 	c.Check(okIdx, rule, funcName(par)+":index", par.Pos(), "key[:8] ← BE64(parse64(token 0))", "index part of the audit-path key: "+whyIdx)
 	c.Check(okH, rule, funcName(par)+":height", par.Pos(), "key[8:] ← BE16(parse(token 1))", "height part of the audit-path key: "+whyH)
 }
+
+// R: collect discipline of the provers — a node hash that the prover reads from its cache and
+// does not recompute is part of what the verifier needs, so it must be recorded in the audit
+// path (wrapped by the collecting node) unless the traversal is already inside a subtree that
+// was recorded as a whole (the traversal's boolean flag). A bare cache read outside such a
+// subtree yields a proof the verifier cannot complete.
+func histCollectDiscipline(c *Ctx, rule string, r *histRoles) {
+	p := c.P
+	for _, k := range []struct {
+		name string
+		fn   *ssa.Function
+		sym  map[int]string
+	}{
+		{"find", r.find, map[int]string{0: "V"}},
+		{"findConsistent", r.findConsistent, map[int]string{0: "I", 1: "V"}},
+		{"checkConsistency", r.checkConsist, map[int]string{0: "S", 1: "E"}},
+	} {
+		label := "prover:" + k.name + ":collect"
+		if k.fn == nil {
+			c.Fail(rule, label, 0, "prover traversal not found")
+			continue
+		}
+		s := r.side(k.fn, k.sym)
+		if s.closure == nil {
+			c.Fail(rule, label, k.fn.Pos(), "traversal closure not found")
+			continue
+		}
+		tb, ok := p.DecisionTable(s.closure, r.m.hook(s), nil)
+		if !ok {
+			c.Fail(rule, label, s.closure.Pos(), "prover traversal is not loop-free")
+			continue
+		}
+		// boolean parameters of the traversal ("already inside a recorded subtree")
+		flags := map[string]bool{}
+		for i, par := range s.closure.Params {
+			if isBool(par.Type()) {
+				flags[fmt.Sprintf("arg%d", i)] = true
+			}
+		}
+		bad := 0
+		nGet := 0
+		for _, row := range tb.Rows {
+			res := row.Result
+			bare := false
+			for i := 0; i+4 <= len(res); i++ {
+				if res[i:i+4] == "GET(" && !(i >= 8 && res[i-8:i] == "COLLECT(") {
+					bare = true
+				}
+			}
+			if strings.Contains(res, "GET(") {
+				nGet++
+			}
+			if !bare {
+				continue
+			}
+			inside := false
+			for f := range flags {
+				if v, has := row.Facts[f]; has && v {
+					inside = true
+				}
+			}
+			if !inside {
+				bad++
+				c.Fail(rule, label, s.closure.Pos(), "under {"+factString(row.Facts)+"} the prover reads a cached hash ("+res+") without recording it in the audit path and outside an already recorded subtree: the verifier will miss that node")
+			}
+		}
+		if nGet == 0 {
+			bad++
+			c.Fail(rule, label, s.closure.Pos(), "the prover traversal reads no cached hash at all")
+		}
+		if bad == 0 {
+			c.Ok(rule, label, s.closure.Pos(), fmt.Sprintf("%d row(s) read the cache, each recorded or inside a recorded subtree", nGet))
+		}
+	}
+}
